@@ -1,6 +1,5 @@
 """C22 — coordination leader and action checklist are the same on every member."""
 META = {
-    "disabled": True,
     "level": "model_checking",
     "text": "The TLA+ module specifies getSeed / getLeader / getActionsChecklist with the results of SHA-256 and math/rand as hidden choices "
             "(one seed per (wallet, safe block hash), one leader rank per (seed, number of unique operators), one heartbeat draw per seed); "
@@ -33,7 +32,7 @@ def run(ctx):
                     label="coordination", timeout=ctx.pick(900, 3000))
     ctx.absorb(go)
     cnt = go.reports["calls"].get("counters") or {}
-    if cnt.get("heartbeat_seeds", 0) < 1 or cnt.get("seeds", 0) < 10:
+    if (cnt.get("heartbeat_seeds", 0) < 1 or cnt.get("seeds", 0) < 10) and not ctx.violations:
         ctx.broken("seed selection too small: %s" % {k: cnt.get(k) for k in ("seeds", "heartbeat_seeds")})
     ranks = sorted(k for k in cnt if k.startswith("rank_"))
     ctx.note("leader ranks observed: %s" % ", ".join("%s x%d" % (k, cnt[k]) for k in ranks))
